@@ -32,6 +32,7 @@ func llvcCmd(args []string) int {
 	replay := fs.Bool("replay", true, "replay counterexamples on the natively compiled C code")
 	jsonOut := fs.String("json", "", "write a machine-readable report to this file")
 	kinds := fs.String("kinds", "", "only solve obligations of these kinds (comma separated)")
+	confirm := fs.Bool("confirm", false, "confirm every unsat answer with a second solver")
 	fs.Usage = func() {
 		fmt.Fprintln(os.Stderr, "usage: bngvc llvc [flags] <file.c> [func ...]")
 		fs.PrintDefaults()
@@ -64,6 +65,7 @@ func llvcCmd(args []string) int {
 		}
 	}
 	solver := smt.NewSolver(*timeout, *cache)
+	solver.Confirm = *confirm
 	exit := 0
 	var reports []*llvc.Report
 	for _, fn := range fns {
